@@ -21,7 +21,7 @@ type CrashStats struct {
 type qstate struct{ A, F int }
 
 // drainImage opens a disk image as a queue and reads everything the reader delivers.
-func (s *Session) drainImage(img []byte) (first int, n int, errStr string) {
+func (s *Session) drainImage(img []byte, hints ...int) (first int, n int, errStr string) {
 	if engine.Progress != nil {
 		engine.Progress() // hang watchdog: every image is progress
 	}
@@ -81,10 +81,16 @@ func (s *Session) drainImage(img []byte) (first int, n int, errStr string) {
 		if first >= 0 {
 			idx = first + n
 		} else {
-			for c := 0; c < len(s.Sizes); c++ {
-				if s.Sizes[c] == sz && bytes.Equal(EventBytes(c, 0, sz), buf) {
+			// tiny events are not unique by content: the positions the specification allows are tried first
+			for _, c := range hints {
+				if c >= 0 && c < len(s.Sizes) && s.Sizes[c] == sz && bytes.Equal(EventBytes(c, 0, sz), buf) {
 					idx = c
 					break
+				}
+			}
+			for c := 0; idx < 0 && c < len(s.Sizes); c++ {
+				if s.Sizes[c] == sz && bytes.Equal(EventBytes(c, 0, sz), buf) {
+					idx = c
 				}
 			}
 			first = idx
@@ -150,7 +156,11 @@ func CrashCheck(s *Session, r *engine.RNG, maxBits, maxImages int) ([]Failure, C
 		}
 		seen[key] = true
 		st.Distinct++
-		first, n, e := s.drainImage(img)
+		var hints []int
+		for _, a := range allowed {
+			hints = append(hints, a.A)
+		}
+		first, n, e := s.drainImage(img, hints...)
 		if e != "" {
 			fails = append(fails, Failure{Prop: "C06", Kind: "crash-drain", Step: k, Msg: fmt.Sprintf("log index %d (%s): %s", k, desc, e)})
 			return
